@@ -235,3 +235,50 @@ Theorem check_spec bs :
                             r <> [] /\ step1 r = err_step e
   end.
 Proof. apply (check_fuel_spec (length bs) bs 0%nat). lia. Qed.
+
+(* ---- the table-based [wf_prefix] of the specification is exactly "non-empty
+   initial subsequence of the encoding of some scalar value" -------------- *)
+Definition pad (p : list N) : list N :=
+  match p with
+  | [b0] =>
+    if b0 <? 0x80 then []
+    else if b0 <? 0xE0 then [0x80]
+    else if b0 <? 0xF0 then [if b0 =? 0xE0 then 0xA0 else 0x80; 0x80]
+    else [if b0 =? 0xF0 then 0x90 else 0x80; 0x80; 0x80]
+  | [b0; _] => if b0 <? 0xE0 then [] else if b0 <? 0xF0 then [0x80] else [0x80; 0x80]
+  | [b0; _; _] => if b0 <? 0xF0 then [] else [0x80]
+  | _ => []
+  end.
+
+Lemma wf_prefix_completes p : wf_prefix p = true -> exists c, dec1 (p ++ pad p) = Some (c, []).
+Proof.
+  destruct p as [|b0 [|b1 [|b2 [|b3 [|b4 p]]]]]; unfold wf_prefix, pad, dec1; cbn [app];
+  intros W; try discriminate; unfold is_cont in *;
+  repeat match goal with
+  | |- context [if ?b then _ else _] => let E := fresh "E" in destruct b eqn:E; try discriminate; try lia
+  | H : context [if ?b then _ else _] |- _ => let E := fresh "E" in destruct b eqn:E; try discriminate; try lia
+  end; try (eexists; reflexivity).
+Qed.
+
+Lemma dec1_whole_prefix p s c : p <> [] -> dec1 (p ++ s) = Some (c, []) -> wf_prefix p = true.
+Proof.
+  intros Hne.
+  destruct p as [|b0 [|b1 [|b2 [|b3 [|b4 p]]]]]; [congruence| | | | |];
+  destruct s as [|s0 [|s1 [|s2 [|s3 s]]]]; unfold wf_prefix, dec1; cbn [app]; unfold is_cont;
+  repeat match goal with
+  | |- context [if ?b then _ else _] => let E := fresh "E" in destruct b eqn:E; try discriminate; try lia
+  end; intros H; try discriminate; try reflexivity; try (inversion H; fail); try lia.
+Qed.
+
+Theorem wf_prefix_iff p :
+  wf_prefix p = true <-> p <> [] /\ exists c s, is_scalar c = true /\ enc c = p ++ s.
+Proof.
+  split.
+  - intros W. split; [intros ->; discriminate|].
+    destruct (wf_prefix_completes p W) as [c D].
+    destruct (dec1_inv _ _ _ D) as [Hc E]. exists c, (pad p). split; [exact Hc|].
+    rewrite app_nil_r in E. symmetry; exact E.
+  - intros [Hne [c [s [Hc E]]]].
+    apply (dec1_whole_prefix p s c Hne). rewrite <- E.
+    pose proof (dec1_enc c [] Hc) as D. rewrite app_nil_r in D. exact D.
+Qed.
